@@ -357,6 +357,20 @@ class Gen:
                 (len(names), total, size, d, more), "expr": s, "size": size}
 
 
+# exhaustive small scope: every sequence of up to k records over these shapes (singles, one-host and several-host
+# ranges, same / different prefixes, padded width, width 0, empty prefix, a name that ends in a digit)
+SHAPES = [Rec(b"a", 0, 0, 0, True), Rec(b"bb", 0, 0, 0, True), Rec(b"a", 1, 1, 1, False), Rec(b"a", 1, 2, 1, False),
+          Rec(b"a", 9, 10, 1, False), Rec(b"a", 7, 8, 2, False), Rec(b"b", 3, 3, 0, False), Rec(b"", 5, 6, 1, False)]
+
+
+def small_scope(k):
+    import itertools
+    for n in range(0, k + 1):
+        for t in itertools.product(SHAPES, repeat=n):
+            yield {"origin": "small-scope", "ops": ["pmk " + " ".join(r.field() for r in t)] if t else ["new"],
+                   "desc": " ".join(r.field() for r in t)}
+
+
 FIXED = [b"aaaaaaa,b,c", b"aaaaaaa", b"a1,b", b"a[1-3],b", b"a[1-3,07-09],b5", b"a1,a3,a5", b"a[9-11],a[011-012]", b"n0[5-7],n05",
          b"12,13,14", b"[1-3]", b"7", b"a1,a2,a3", b"foo1,foo01,foo001", b"a[1-2],a[1-2]", b"x,y,x", b"a[18446744073709551612-18446744073709551614]"]
 
